@@ -532,20 +532,22 @@ class WebSocketApp:
         )
 
         try:
-            setSock()
-            if not custom_dispatcher and reconnect:
-                while self.keep_running:
-                    _logging.debug(
-                        f"Calling dispatcher reconnect [{len(inspect.stack())} frames in stack]"
-                    )
-                    dispatcher.reconnect(reconnect, setSock)
+            try:
+                setSock()
+                if not custom_dispatcher and reconnect:
+                    while self.keep_running:
+                        _logging.debug(
+                            f"Calling dispatcher reconnect [{len(inspect.stack())} frames in stack]"
+                        )
+                        dispatcher.reconnect(reconnect, setSock)
+            finally:
+                if not custom_dispatcher:
+                    # Ensure teardown was called before returning from run_forever
+                    teardown()
         except (KeyboardInterrupt, Exception) as e:
+            # also covers an interrupt raised by on_close during the teardown above
             _logging.info(f"tearing down on exception {e}")
             teardown()
-        finally:
-            if not custom_dispatcher:
-                # Ensure teardown was called before returning from run_forever
-                teardown()
 
         return self.has_errored
 
